@@ -350,3 +350,12 @@ Definition unready_dispatch (i : inst) (x : state) (tr : transition) : bool :=
   | _, _ => false end.
 Fixpoint scan_unready (i : inst) (x : state) (lg : list (transition * state)) : bool :=
   match lg with [] => false | (tr, y) :: r => unready_dispatch i x tr || scan_unready i y r end.
+
+(* the readiness conjunct of ev_dispatch on its own: early transport allowed, or the job ready for pickup *)
+Definition dispatch_ready_conj (i : inst) (x : state) (tr : transition) : bool :=
+  match tr_job tr with
+  | Some j => match nth_error (s_jobs x) j with
+              | Some jb => i_early i || match is_ready i x j jb with Ok r => r | Err _ => false end
+              | None => false end
+  | None => false end.
+
